@@ -208,4 +208,15 @@ def srun (s : SSys) : List (Nat × SAct) → Option SSys
 def heldAnswer (s : SSys) (a : Nat) : Bool :=
   (s.cl a).isLocked && (match s.obj with | some o => o.owner == a | none => false)
 
+/-! ### the polling loop of `S3LockProvider.acquire` while the lock stays with a live owner
+
+`while True: try (fails); if time.time() - start >= timeout: raise TimeoutError; time.sleep(d)` — `d` is the jittered poll
+interval.  Times in milliseconds; `sleeps` are the durations the loop draws. -/
+
+/-- elapsed time at which `TimeoutError` is raised; `none` = the script of sleeps ran out first -/
+def pollLoop (timeout : Nat) : Nat → List Nat → Option Nat
+  | el, [] => if el ≥ timeout then some el else none
+  | el, d :: rest => if el ≥ timeout then some el else pollLoop timeout (el + d) rest
+
+
 end DSV.Lock
